@@ -100,7 +100,13 @@ def make_client_config(rng, focus, idx):
             outs = [(N,)]
     size = rng.choice([4, 6, 8, 10, 12, 16, 20, 24, 30])
     truth_only = focus == 'C04' and not probe and rng.random() < 0.8
-    prog = programs.gen_program(rng, fam, n_in, outs, size, truth_only=truth_only)
+    # C05 only: programs that compute some values with recording switched off and use them
+    # afterwards (the graph captures them as constants); no reverse mode on these graphs
+    off_prob = 0.2 if (focus == 'C05' and not probe and rng.random() < 0.12) else 0.0
+    if off_prob:
+        workload = 'multi'
+    prog = programs.gen_program(rng, fam, n_in, outs, size,
+                                truth_only=truth_only, off_prob=off_prob)
     if workload == 'multi' and len(n_in) == 2:
         _use_second_input(rng, prog)
     if rng.random() < 0.45:
@@ -482,15 +488,19 @@ def make_run(focus, seed):
             return
         c.n_calls += 1
         driver_ok = clients_cfg[c.idx]['workload'] == 'driver'
-        table = [('fwd', W['fwd']), ('rev', W['rev'] if c.have_fwd else 0.0),
+        frozen = bool(prog.get('frozen'))
+        table = [('fwd', W['fwd']), ('rev', W['rev'] if (c.have_fwd and not frozen) else 0.0),
                  ('drv', W['drv'] if driver_ok else 0.0),
                  ('repeat', W['repeat'] if c.last_call is not None else 0.0),
                  ('rec_off', W['rec_off'] * 0.3 if ptr[0] is None else 0.0),
-                 ('poison', W['poison']), ('bad_seed', W['bad_seed'] if c.have_fwd else 0.0)]
+                 ('poison', W['poison']), ('bad_seed', W['bad_seed'] if (c.have_fwd and not frozen) else 0.0)]
         if not any(w > 0 for _, w in table):
             table[0] = ('fwd', 1.0)
         if want is not None:
             ok = dict(table).get(want, 0.0) > 0 or want in ('fwd',)
+            if want in ('rev', 'drv') and frozen:
+                want = 'fwd'
+                ok = True
             if want == 'rev' and not c.have_fwd:
                 ok = False
             if want == 'drv' and not driver_ok:
